@@ -53,6 +53,7 @@ type Case struct {
 	// the memory and goroutine oracles were suspended (an abandoned walk of
 	// an earlier suspect case was still running)
 	disturbed bool
+	why       string // why the last run was given up: "cpu", "wall" or "blocked"
 }
 
 var replaying bool
@@ -83,7 +84,7 @@ func runOnce(c *Case, cpuBudget, wallBudget time.Duration) (res outcome, finishe
 		}
 	})
 	mode := modes[((c.Mode%3)+3)%3]
-	var tid atomic.Int64
+	var tid, gid atomic.Int64
 	go func() {
 		var o outcome
 		// the walk keeps its OS thread, so that the CPU time it consumes
@@ -91,6 +92,7 @@ func runOnce(c *Case, cpuBudget, wallBudget time.Duration) (res outcome, finishe
 		// many other processes compete for the cores)
 		runtime.LockOSThread()
 		tid.Store(int64(syscall.Gettid()))
+		gid.Store(int64(currentGoroutine()))
 		defer func() {
 			if r := recover(); r != nil {
 				// Walk recovers per step; this is the harness's own code
@@ -103,7 +105,7 @@ func runOnce(c *Case, cpuBudget, wallBudget time.Duration) (res outcome, finishe
 	}()
 	stopWatch := make(chan struct{})
 	defer close(stopWatch)
-	expired := watchBudget([]*atomic.Int64{&tid}, cpuBudget, wallBudget, stopWatch)
+	expired := watchBudget(base, []*atomic.Int64{&tid}, []*atomic.Int64{&gid}, cpuBudget, wallBudget, stopWatch)
 	t0 := time.Now()
 	select {
 	case res = <-done:
@@ -131,9 +133,10 @@ func runOnce(c *Case, cpuBudget, wallBudget time.Duration) (res outcome, finishe
 		}
 		return outcome{err: fmt.Errorf("memory: live heap reached %d MiB while walking an input of %d bytes and the walk is still running (bound: 768 MiB + 64 x input = %d MiB)",
 			live>>20, len(c.Data), limit>>20)}, true, true
-	case <-expired:
+	case why := <-expired:
 		mw.finish()
 		abandon(done)
+		c.why = why
 		return res, false, false
 	}
 	c.wall = time.Since(t0)
@@ -166,8 +169,30 @@ func runOnce(c *Case, cpuBudget, wallBudget time.Duration) (res outcome, finishe
 // real hang on a 100 KB input would be confirmed only after hours.
 const (
 	suspectCap = 90 * time.Second
-	confirmCap = 120 * time.Second
+	// how long a deadlock picture must persist unchanged, with no CPU time
+	// consumed, before the walk counts as blocked
+	blockedWindow = 5 * time.Second
+	confirmCap    = 120 * time.Second
 )
+
+// blockedStacks returns the stacks of the parked goroutines which are inside
+// the library (for the violation message).
+func blockedStacks() string {
+	var out []string
+	for _, g := range allGoroutines() {
+		if parked(g.state) && inLibrary(g.text) {
+			t := g.text
+			if len(t) > 1500 {
+				t = t[:1500] + "\n..."
+			}
+			out = append(out, t)
+			if len(out) >= 2 {
+				break
+			}
+		}
+	}
+	return strings.Join(out, "\n\n")
+}
 
 // abandoned counts walks which were given up on and are still running.
 var abandoned atomic.Int32
@@ -202,13 +227,21 @@ func threadCPU(tid int64) time.Duration {
 
 // watchBudget signals when the wall-clock budget is used up, or when every
 // one of the given walk threads has consumed more than the CPU budget.
-func watchBudget(tids []*atomic.Int64, cpuBudget, wallBudget time.Duration, stop <-chan struct{}) <-chan string {
+// It also signals "blocked" when the walks are deadlocked: all of them parked
+// on a channel or lock, every goroutine started since the baseline parked as
+// well, this picture unchanged and the CPU time of the walk threads not
+// advancing over blockedWindow.  Such a walk is not slow, it waits for
+// something that cannot happen; machine load cannot produce this picture (a
+// starved goroutine is runnable, not parked).
+func watchBudget(base baseline, tids, gids []*atomic.Int64, cpuBudget, wallBudget time.Duration, stop <-chan struct{}) <-chan string {
 	out := make(chan string, 1)
 	go func() {
+		self := currentGoroutine()
 		t0 := time.Now()
 		tick := time.NewTicker(200 * time.Millisecond)
 		defer tick.Stop()
-		for {
+		lastSig, lastCPU, since := "", time.Duration(-1), time.Time{}
+		for n := 0; ; n++ {
 			select {
 			case <-stop:
 				return
@@ -217,6 +250,21 @@ func watchBudget(tids []*atomic.Int64, cpuBudget, wallBudget time.Duration, stop
 			if time.Since(t0) > wallBudget {
 				out <- "wall"
 				return
+			}
+			if n%5 == 4 { // once a second
+				walkers := make([]int, len(gids))
+				var cpu time.Duration
+				for i, g := range gids {
+					walkers[i] = int(g.Load())
+					cpu += threadCPU(tids[i].Load())
+				}
+				sig := blockedSignature(base, walkers, self)
+				if sig == "" || sig != lastSig || cpu != lastCPU {
+					lastSig, lastCPU, since = sig, cpu, time.Now()
+				} else if time.Since(since) >= blockedWindow {
+					out <- "blocked"
+					return
+				}
 			}
 			all := len(tids) > 0
 			for _, t := range tids {
@@ -240,14 +288,17 @@ func watchBudget(tids []*atomic.Int64, cpuBudget, wallBudget time.Duration, stop
 func confirmParallel(c *Case, cpuBudget, wallBudget time.Duration) (res outcome, finished bool) {
 	mode := modes[((c.Mode%3)+3)%3]
 	done := make(chan outcome, 3)
+	base := takeBaseline()
 	tids := []*atomic.Int64{new(atomic.Int64), new(atomic.Int64), new(atomic.Int64)}
+	gids := []*atomic.Int64{new(atomic.Int64), new(atomic.Int64), new(atomic.Int64)}
 	for i := 0; i < 3; i++ {
 		one := make(chan outcome, 1)
-		tid := tids[i]
+		tid, gid := tids[i], gids[i]
 		go func() {
 			var o outcome
 			runtime.LockOSThread()
 			tid.Store(int64(syscall.Gettid()))
+			gid.Store(int64(currentGoroutine()))
 			defer func() {
 				if r := recover(); r != nil {
 					o.err = fmt.Errorf("panic outside a step: %v\n%s", r, trimStack(debug.Stack()))
@@ -270,7 +321,7 @@ func confirmParallel(c *Case, cpuBudget, wallBudget time.Duration) (res outcome,
 	select {
 	case res = <-done:
 		return res, true
-	case <-watchBudget(tids, cpuBudget, wallBudget, stop):
+	case c.why = <-watchBudget(base, tids, gids, cpuBudget, wallBudget, stop):
 		return res, false
 	}
 }
@@ -302,6 +353,14 @@ func checkCase(c *Case) error {
 			}
 		}
 		if !finished {
+			if c.why == "blocked" {
+				msg := fmt.Sprintf("hang: walking %d bytes in mode %s blocks forever: in the first run and in three further runs the walk was parked on a channel or lock, with every goroutine started by it parked as well and no CPU time consumed for %v (nobody is left who could wake it)\n%s",
+					len(c.Data), modeNames[c.Mode%3], blockedWindow, blockedStacks())
+				if !replaying {
+					vt.Fatal(property, kindCase, c, msg)
+				}
+				return fmt.Errorf("%s", msg)
+			}
 			msg := fmt.Sprintf("hang: walking %d bytes in mode %s did not finish within %v of CPU time, nor within %v of CPU time in any of three further runs (budget 5 s + 1 ms/byte, x20 capped at %v; CPU time of the walk's own thread, wall-clock limit 8 x that)",
 				len(c.Data), modeNames[c.Mode%3], base, min(20*base, confirmCap), confirmCap)
 			if !replaying {
